@@ -25,7 +25,8 @@ LEVEL_TEXT = ("Real child processes (well-behaved, exiting at every step k of th
               " Also children talkative on stderr x LOG_LEVEL/LOGGING_LEVEL environments, a companion client of the same process that must stay usable, and the fd table sampled at the moment of exit, before and after a garbage collection."
               ' Also the same client object entered again after earlier uses.'
               ' Also a flooding child that exits 0 on SIGTERM.'
-              ' Also a native asyncio deadline (asyncio.timeout) during the grace periods, a 0.1 ms-step sweep of cancellation through the spawn (children looked up in /proc by parent pid), and an unread backlog of 99-130 messages ending in an id-carrying one.')
+              ' Also a native asyncio deadline (asyncio.timeout) during the grace periods, a 0.1 ms-step sweep of cancellation through the spawn (children looked up in /proc by parent pid), and an unread backlog of 99-130 messages ending in an id-carrying one.'
+              ' Also a child flooding stdout with short lines that are not messages.')
 LEVEL_NOTE = ("Trusted: /proc inspection, the spy around anyio.open_process (records pids of every spawn). Wall-clock bound "
               "uses 1.5 s slack; a breach is re-measured once in isolation and only a reproduced breach is a violation "
               "(a single one is inconclusive).")
